@@ -108,6 +108,11 @@ def run(ctx):
             files = [{"p": f"m{j}", "n": max(1, cpf * 64 - j), "s": 4321 * i + j} for j in range(nf)]
             cases.append({"name": f"skew-{nf}f-{cpf}c-{st}s-{'-'.join(map(str, delays))}-{'resume' if resume else 'fresh'}", "files": files, "chunk": 64, "streams": st,
                           "conns": len(delays), "conn_delays_ms": delays, "transport": "netsim", "noroot": True, "resume": resume, "timeout_ms": 12000})
+    # an earlier, interrupted attempt at the same file with another chunk size left its record behind
+    for i, (size, ch, och, marked) in enumerate([(512, 64, 128, [0, 1]), (512, 32, 128, [0, 1]), (300, 64, 32, [0, 3, 8]), (200, 32, 64, [0, 1, 2, 3])]):
+        cases.append({"name": f"prior-other-chunk-size-{i}", "files": [{"p": "file.bin", "n": size, "s": 600 + i}, {"p": "other.bin", "n": 40, "s": 700 + i}], "chunk": ch,
+                      "streams": 2, "conns": 1, "transport": "netsim", "noroot": True, "resume": True, "timeout_ms": 6000,
+                      "prior": [{"file": "file.bin", "chunks": marked, "foreign_chunk": och}]})
     # legal file names that are not valid UTF-8 (the manifest travels as JSON: see the C18 finding with the same root cause)
     for i, nm in enumerate((b"caf\xe9.txt", b"d/a\xff")):
         cases.append({"name": f"nonutf8-name-{i}", "files": [{"p": nm.hex(), "x": True, "n": 100, "s": 70 + i}, {"p": "ok.bin", "n": 50, "s": 80 + i}], "chunk": 64, "streams": 2,
